@@ -14,6 +14,7 @@ mod fam_meta;
 mod fam_hexenc;
 mod fam_ids;
 mod fam_sync;
+mod fam_hexcol;
 mod gen;
 mod model;
 
@@ -43,6 +44,7 @@ fn main() {
         "hexenc" => fam_hexenc::run(&mut rng, &tier, out),
         "ids" => fam_ids::run(&mut rng, &tier, out),
         "sync" => fam_sync::run(&mut rng, &tier, out),
+        "hexcol" => fam_hexcol::run(&mut rng, &tier, out),
         _ => {
             eprintln!("unknown family {}", fam);
             std::process::exit(2);
